@@ -125,6 +125,7 @@ class Gen:
         if storagecap:
             self.emit("storagecap %d" % storagecap)
         self.tok = 10
+        self.after_parjob = False
         for _ in range(ndeps):
             m = rng.choice(self.letters)
             ds = [d for d in rng.sample(self.letters, rng.randint(1, 2)) if d != m]
@@ -157,13 +158,18 @@ class Gen:
     def any_handle(self):
         """malformed stream: stale / null / raw / not-yet-alive handles"""
         k = self.r.random()
+        if self.after_parjob and k >= 0.65:
+            k = 0.6      # after a free-running job only issued ordinals and null (raw patterns could alias entities it created)
         if k < 0.5 and self.ref.n > 0:
             return str(self.r.randrange(self.ref.n))
         if k < 0.65:
             return "null"
         if k < 0.8:
-            # plausible pattern: small id, small version, world 0 or another world
-            v = self.r.randrange(0, 8) | (self.r.choice([0, 0, 1, 5]) << 30) | (self.r.randrange(0, 4) << 40)
+            # plausible pattern: small id, small version, world 0 or another world. While locked only other-world patterns:
+            # a same-world pattern may be the handle a creation of this very section receives, and what a command recorded
+            # for a not-yet-issued handle "means" at unlock is not fixed by the property (DESIGN.md 9.3)
+            world = self.r.choice([1, 5]) if self.ref.lock > 0 else self.r.choice([0, 0, 1, 5])
+            v = self.r.randrange(0, 8) | (world << 30) | (self.r.randrange(0, 4) << 40)
             return "raw:%x" % v
         return "raw:%x" % self.r.getrandbits(64)
 
@@ -378,6 +384,18 @@ class Gen:
                 self.emit("%s%s %s" % (p, q, h))
         elif op == "dump":
             self.emit("dump")
+        elif op == "latedep":
+            if locked:
+                return
+            alive = ref.projected()[0]
+            cands = [m for m in self.letters if not any(m in e["c"] for e in alive.values())]
+            if not cands:
+                return
+            m = r.choice(cands)
+            ds = [d for d in r.sample(self.letters, r.randint(1, 2)) if d != m]
+            if ds:
+                ref.add_dep(m, ds)
+                self.emit("dep %s %s" % (m, ",".join(sorted(ds))))
         elif op == "parjob":
             if locked or ref.threads < 1:
                 return
@@ -395,6 +413,7 @@ class Gen:
                 elif k == 2 and "H" not in ref.alive[o]["c"]:
                     ref.alive[o]["c"] = ref.closure(ref.alive[o]["c"] | {"H"})
             self.emit("parjob tasks=%d tok=%d" % (r.randint(1, len(hit) + 1), base))
+            self.after_parjob = True
 
     def _touches(self, t, o, c):
         """is component c of entity o already assigned/removed in the pack currently open on thread t?"""
@@ -716,6 +735,7 @@ class Session:
 
     def check_file(self, ops, label=""):
         """returns None if fine, else (kind, message) where kind in {'oracle','abort','tie'}"""
+        ops = self.in_contract(ops)
         impl, note, err = run_impl(self.exe, ops)
         if "parjob" in ops and not note:
             # free-running parallel job: the implementation's recorded interleaving becomes a scripted section
@@ -746,6 +766,20 @@ class Session:
         if d:
             return ("tie", "output line %d: impl `%s` model `%s`" % (d[0], d[1][:300], d[2][:300]))
         return None
+
+    def in_contract(self, ops):
+        """truncate the history before the first op that leaves the documented contract (an unguarded entry point given a
+        handle that is not valid at that moment - raw patterns may alias live entities, which only the model can know)"""
+        rc, out, err = vlib.run([self.drv, "worldcontract"], inp=ops, timeout=120)
+        try:
+            k = int(out.strip().splitlines()[-1])
+        except (ValueError, IndexError):
+            return ops
+        if k < 0:
+            return ops
+        self.truncated = getattr(self, "truncated", 0) + 1
+        lines = op_lines(ops)[:k]
+        return "\n".join(lines + ["dump", "teardown"]) + "\n"
 
     def account(self, ops):
         self.n += 1
@@ -782,7 +816,11 @@ def stress_parallel_creates(ctx):
         lines += ["create A"] * n
         tok = 100000
         for j in range(3):
-            lines.append("parjob tasks=%d tok=%d" % ((9 if k % 2 == 0 else 4), tok))
+            if j == 1:
+                # every task only creates: thousands of id reservations racing on the manager's atomic counter
+                lines.append("parjob tasks=%d tok=%d creates=3" % ((9 if k % 2 == 0 else 4), tok))
+            else:
+                lines.append("parjob tasks=%d tok=%d" % ((9 if k % 2 == 0 else 4), tok))
             tok += 100000
             lines += ["valid %d" % ctx.rng.randrange(n) for _ in range(20)]
         lines += ["valid %d" % (n + i) for i in range(0, 40, 3)]
@@ -852,6 +890,7 @@ def run_world_check(ctx, cfg):
                  "to the checked entry points); non-trivial = distinct files with >= 3 structural operations. " + cfg.get("what", ""),
             samples=sess.samples, op_histogram=dict(sorted(sess.hist.items())),
             oracle_failures=len(failures["oracle"]), aborts=len(failures["abort"]), tie_differences=len(failures["tie"]),
+            truncated_at_contract_boundary=getattr(sess, "truncated", 0),
             trusted_base=["Lean 4.33 kernel and the axioms listed under axioms_used",
                           "harness/world_driver.cpp + canonicalisation; tools/props/world_common.py generator and diff",
                           "hand-written model lean/Mustache/Model/World.lean and spec lean/Mustache/Spec/World.lean: tied to /repo by "
